@@ -28,6 +28,11 @@ def gen(rng, tier):
         if d['rat']:
             cart = [[c / pt[-1] for c in pt[:-1]] for pt in d['P']]
         out.append(Case('bbox', "bbox %s" % show_pts(cart), dict(shape=d)))
+    # read bbox, replace the control points, read again (the box must follow the net)
+    for _ in range(12 if tier == 'quick' else 120):
+        d = KO.rand_shape(rng)
+        shift = [F(rng.randint(5, 9)) for _ in range(d['dim'])]
+        out.append(Case('bbox-history', None, dict(shape=d, shift=shift)))
     for _ in range(15 if tier == 'quick' else 150):
         d = S.rand_curve(rng, rational=False, maxp=4, allow_range=False)
         out.append(Case('length', None, dict(shape=d, n=rng.randint(2, 30))))
@@ -61,6 +66,17 @@ def oracle(c):
                 idx = combo[1] + d['sv'] * (combo[0] + d['su'] * combo[2])
             cp = d['P'][idx]
             act.append([x / cp[-1] for x in cp[:-1]] if d['rat'] else cp)
+        if d['kind'] in ('curve', 'surface'):
+            from geomdl import operations
+            fc = operations.find_ctrlpts(o, *[q(x) for x in ps])
+            flat = [list(p_) for p_ in fc] if d['kind'] == 'curve' else [list(p_) for row in fc for p_ in row]
+            got = [[x.q if hasattr(x, 'q') else F(x) for x in p_] for p_ in flat]
+            act_h = []
+            for combo in itertools.product(*rngs):
+                idx = combo[0] if d['kind'] == 'curve' else combo[1] + d['sv'] * combo[0]
+                act_h.append(d['P'][idx])
+            if got != act and got != act_h:
+                return "operations.find_ctrlpts at %s does not return the control points active on the span" % (tuple(map(fr, ps)),)
         axes = [[F(1) if i == j else F(0) for i in range(d['dim'])] for j in range(d['dim'])]
         for dr in axes + c.data['dirs']:
             val = sum(a * b for a, b in zip(dr, pt))
@@ -79,6 +95,24 @@ def oracle(c):
             a = o.evaluate_single(q(last[0]) if d['kind'] == 'curve' else tuple(q(x) for x in last))
             if [x for x in a] != cart(d['P'][-1]):
                 return "clamped shape does not end at its last control point"
+        return None
+    if c.kind == 'bbox-history':
+        _ = o.bbox
+        sh = c.data['shift']
+        newP = [[x + s_ * (pt[-1] if d['rat'] else 1) for x, s_ in zip(pt, sh)] + ([pt[-1]] if d['rat'] else []) for pt in d['P']]
+        from core import qpts
+        if d['kind'] == 'curve':
+            o.set_ctrlpts(qpts(newP))
+        elif d['kind'] == 'surface':
+            o.set_ctrlpts(qpts(newP), d['su'], d['sv'])
+        else:
+            o.set_ctrlpts(qpts(newP), d['su'], d['sv'], d['sw'])
+        bb = [[x.q if hasattr(x, 'q') else F(x) for x in side] for side in o.bbox]
+        d2 = dict(d, P=newP)
+        ps = [kv[p] for (p, kv, n) in S.dirs(d2)]
+        pt = S.eval_ref(d2, ps)
+        if any(not (lo <= x <= hi) for x, lo, hi in zip(pt, bb[0], bb[1])):
+            return "after replacing the control points the start point %s lies outside the reported bounding box %s .. %s" % (show_list(pt), show_list(bb[0]), show_list(bb[1]))
         return None
     if c.kind == 'bbox':
         cart = [[x / pt[-1] for x in pt[:-1]] for pt in d['P']] if d['rat'] else d['P']
